@@ -372,6 +372,19 @@ fn actions_uncached(sys: &Sys, t: &Tables, g: &G, only: usize) -> Vec<Action> {
             }
         }
     }
+    // ... and blocks nobody stores yet but whose certificate the faulty validator can assemble from the votes in
+    // the pool plus its own: it can serve them to anyone through block sync ("a certified block is part of the
+    // chain even if no correct node saw the certificate when it was formed")
+    for (_, c) in &d.cqcs {
+        for p in &w.proposals {
+            if p.hash() == c.header().payload {
+                let e = avail_blocks.entry(c.header().number.0).or_default();
+                if !e.iter().any(|x| x.payload == *p) {
+                    e.push(w.final_block(p, c));
+                }
+            }
+        }
+    }
     let (px, py) = (w.proposals[0].clone(), w.proposals[1].clone());
     for (ri, &vi) in sys.correct.iter().enumerate() {
         if ri != only {
